@@ -74,7 +74,7 @@ def rowDefects (r : Row) : List String :=
    | .missing => ["missing"]
    | .mustRefuse => ["refuse"]
    | .allUnitless => restDefects r .unitless 0 r.leaves
-   | .leaves l => zipDefects r 0 l r.leaves
+   | .leaves l => if r.tailRepeats then ["degree:leaves:repeat"] else zipDefects r 0 l r.leaves
    | .headRest h rest =>
      match r.leaves with
      | [] => ["degree:leaves:0/1"]
